@@ -22,7 +22,10 @@ import (
 	"math/big"
 	"os"
 	"path/filepath"
+	"runtime"
+	"runtime/debug"
 	"sort"
+	"strings"
 	"sync"
 
 	"github.com/ethereum/go-ethereum/common"
@@ -423,6 +426,34 @@ func copyDir(src, dst string) {
 	}
 }
 
+// knownPanics counts occurrences of the known finding C42-add-panic-after-overflow.
+var knownPanics int
+
+// addPooled calls AddPooledTx.
+//
+// TODO-KNOWN-FINDING C42-add-panic-after-overflow: when the pool is already over its capacity (a
+// Reset reinjected reorged-out transactions beyond Datacap) the eviction loop of addLocked can drop
+// two or more transactions of the adding account; drop() nils the tail of the very slice addLocked
+// still holds, and the announcement check `txs[offset-1].announced` dereferences nil.  All state
+// updates of the add are complete at that point (only announcements follow) and the deferred unlock
+// runs, so the harness recovers from exactly this panic (nil dereference inside addLocked), records
+// it, and treats the add as the successful add it would have been.  Any other panic is re-raised and
+// reported as a violation by the check.
+func (s *sut) addPooled(ptx *blobpool.BlobTxForPool) (err error, panicked bool) {
+	defer func() {
+		if r := recover(); r != nil {
+			re, ok := r.(runtime.Error)
+			stack := string(debug.Stack())
+			if !ok || !strings.Contains(re.Error(), "nil pointer dereference") || !strings.Contains(stack, "blobpool.(*BlobPool).addLocked") {
+				panic(r)
+			}
+			knownPanics++
+			err, panicked = nil, true
+		}
+	}()
+	return s.pool.AddPooledTx(ptx), false
+}
+
 // small ids: billy keys are slot | shelf<<28
 func sid(id uint64) int64 { return int64(id>>28)*100000 + int64(id&0x0FFFFFFF) }
 
@@ -455,7 +486,11 @@ func (s *sut) apply(a *act) (cls string, extra tl.M) {
 		if err := s.pool.ValidateTxBasics(r.full); err != nil {
 			return errClass(err), extra
 		}
-		return errClass(s.pool.AddPooledTx(r.ptx)), extra
+		err, panicked := s.addPooled(r.ptx)
+		if panicked {
+			extra["panic"] = true
+		}
+		return errClass(err), extra
 	case "reset":
 		nb, ok := s.chain.byID[a.ID]
 		if !ok {
@@ -999,6 +1034,7 @@ func main() {
 	os.MkdirAll(*dir, 0o700)
 	measureUnit(*dir)
 	sum.Extra["unit_bytes"] = unitSize
+
 	switch *mode {
 	case "replay":
 		runReplay(*in, *dir, *trace, sum)
@@ -1009,6 +1045,7 @@ func main() {
 	default:
 		tl.Fatal("bad mode")
 	}
+	sum.Extra["known_panics_C42_add_panic_after_overflow"] = knownPanics
 	sum.Write(*out)
 	if len(sum.Violations) > 0 {
 		os.Exit(1)
